@@ -35,6 +35,7 @@ type Obligation struct {
 	ctx       *Ctx
 	Bounded   string // non-empty: counted as bounded, with this note
 	Replay    *ReplayPlan
+	Structural bool // decided syntactically (frame checker), no SMT query
 }
 
 type namedTerm struct {
@@ -249,11 +250,15 @@ type Frame struct {
 	old    *State
 	env0   map[string]Val // logical names of the contract (params, ghosts)
 	ord    []*ssa.BasicBlock
+	curBlock *ssa.BasicBlock
+	timeLoop *loopInfo
+	inputs   map[*ssa.Parameter]bool
 }
 
 type retInfo struct {
 	st   *State
 	vals []Val
+	blk  *ssa.BasicBlock
 }
 
 func (c *Ctx) freshVal(st *State, name string, t types.Type) Val {
@@ -862,6 +867,7 @@ func (fr *Frame) setEdge(b, succ *ssa.BasicBlock, st *State, cond T) {
 
 func (fr *Frame) execBlock(b *ssa.BasicBlock, st *State) {
 	c := fr.c
+	fr.curBlock = b
 	for _, instr := range b.Instrs {
 		switch in := instr.(type) {
 		case *ssa.Phi, *ssa.DebugRef:
@@ -880,7 +886,7 @@ func (fr *Frame) execBlock(b *ssa.BasicBlock, st *State) {
 			for _, r := range in.Results {
 				vals = append(vals, fr.get(r))
 			}
-			fr.rets = append(fr.rets, retInfo{st, vals})
+			fr.rets = append(fr.rets, retInfo{st, vals, b})
 			return
 		case *ssa.Panic:
 			if fr.fcPanicsAllowed() {
